@@ -41,17 +41,31 @@ def bank(n, have_sec, have_virt):
     return c + [('LRusr', None)]  # Hyp mode uses LR_usr
 
 
+# values written to general registers on the current path: by the code under test (through the summaries of
+# Registers.set / set_rmode) and by the oracle -- candidates for the value lemmas of vf/unit.py
+WRITES_IMPL = []
+WRITES_OR = []
+MUX = {}  # ast id -> register-read multiplexer term built by bank_get (kept alive so that ids stay unique)
+
+
 def bank_get(R, n, mode, have_sec, have_virt):
     """R: dict name -> BV32. value of R[n] as seen from `mode` (n: int 0..14 or 4-bit term)"""
+    res = _bank_get(R, n, mode, have_sec, have_virt)
+    if z3.is_app(res) and res.decl().kind() == z3.Z3_OP_ITE:
+        MUX[res.get_id()] = res
+    return res
+
+
+def _bank_get(R, n, mode, have_sec, have_virt):
     if isinstance(n, int):
         res = None
         for name, m in reversed(bank(n, have_sec, have_virt)):
             res = R[name] if m is None else z3.If(mode == MODE[m], R[name], res)
         return res
     n = bv(n, 4)
-    res = bank_get(R, 14, mode, have_sec, have_virt)
+    res = _bank_get(R, 14, mode, have_sec, have_virt)
     for i in range(13, -1, -1):
-        res = z3.If(n == i, bank_get(R, i, mode, have_sec, have_virt), res)
+        res = z3.If(n == i, _bank_get(R, i, mode, have_sec, have_virt), res)
     return res
 
 
@@ -207,6 +221,8 @@ class St:
 
     def rmode_set(self, n, mode, v, guard=None):
         """write v to R[n] of mode (n int or 4-bit term, must be 0..14), optionally only when guard"""
+        if z3.is_bv(v) and not z3.is_bv_value(v):
+            WRITES_OR.append(v)
         bank_set(self.R, n, mode, v, guard, self.have_sec, self.have_virt)
 
     def pc_read(self):
